@@ -65,7 +65,8 @@ def cosmo0():
 APPLICABLE = ["lambda_mst_sigma/nonIFU", "lambda_ifu_sigma/IFU", "a_ani_sigma/kin", "beta_inf_sigma/GOM", "gamma_in_sigma/kin", "log_m2l_sigma/kin",
               "gamma_pl_sigma/global/kin", "gamma_pl_sigma/global/DSPL", "sigma_sne/mag", "los_global_sigma/GAUSSIAN", "los_global_sigma/GEV",
               "los_individual/PDF", "los_individual/GEV", "joint/kin", "nonfinite_draws/DSPL",
-              "a_ani_sigma/kin/edge", "beta_inf_sigma/GOM/edge", "joint/GOM/edge", "gamma_in_sigma/kin/edge", "log_m2l_sigma/kin/edge"]
+              "a_ani_sigma/kin/edge", "beta_inf_sigma/GOM/edge", "joint/GOM/edge", "gamma_in_sigma/kin/edge", "log_m2l_sigma/kin/edge",
+              "joint/lens/edge"]
 INAPPLICABLE = ["lambda_mst_sigma/IFU", "lambda_ifu_sigma/nonIFU", "lambda_mst_sigma/nonIFU/dist_NONE", "a_ani_sigma/no_kin_scaling", "a_ani_sigma/dist_NONE",
                 "a_ani_sigma/not_sampled", "beta_inf_sigma/OM", "gamma_in_sigma/not_sampled", "log_m2l_sigma/not_sampled", "gamma_pl_sigma/not_global", "sigma_sne/nonmag"]
 KNOWN_IFU = ["lambda_ifu_sigma/IFU/mst_dist_NONE"]
@@ -191,6 +192,18 @@ def make_case(inp):
         s_p = float(rng.uniform(0.05, 0.2)) if p == "gamma_in" else float(rng.uniform(0.03, 0.1))
         kl[p] = float(AX[p][-1] - z * s_p if upper else AX[p][0] + z * s_p)
         sig = [("kwargs_lens", p + "_sigma", s_p)]
+    elif c == "joint/lens/edge":
+        # every lens-level scatter at once on a lens whose inner slope AND mass-to-light sit near a grid edge: each rejected draw re-enters
+        # draw_lens, and every re-draw must still sample the declared lambda / gamma_in / log_m2l populations (IFU and non-IFU flagging)
+        ifu = bool(rng.random() < 0.6)
+        data(t, gamma_in_sampling=True, gamma_in_distribution="GAUSSIAN", log_m2l_sampling=True, log_m2l_distribution="GAUSSIAN",
+             lambda_mst_distribution="GAUSSIAN", mst_ifu=ifu, **grid_for(rng, ["gamma_in", "log_m2l"], nk))
+        s_g, s_m = float(rng.uniform(0.05, 0.2)), float(rng.uniform(0.03, 0.1))
+        zg, zm = float(rng.uniform(0.3, 0.9)), float(rng.uniform(0.3, 0.9))
+        kl.update(gamma_in=float(AX["gamma_in"][-1] - zg * s_g if rng.random() < 0.5 else AX["gamma_in"][0] + zg * s_g), gamma_in_sigma=0.0,
+                  log_m2l=float(AX["log_m2l"][-1] - zm * s_m if rng.random() < 0.5 else AX["log_m2l"][0] + zm * s_m), log_m2l_sigma=0.0)
+        sig = [("kwargs_lens", "gamma_in_sigma", s_g), ("kwargs_lens", "log_m2l_sigma", s_m),
+               ("kwargs_lens", "lambda_ifu_sigma" if ifu else "lambda_mst_sigma", s_lam)]
     elif c == "a_ani_sigma/no_kin_scaling":
         data(t, anisotropy_model="OM", anisotropy_sampling=True, anisotropy_distribution="GAUSSIAN")
         kk = dict(a_ani=2.0, a_ani_sigma=0.0); sig = [("kwargs_kin", "a_ani_sigma", 0.2)]
@@ -585,7 +598,7 @@ def run_error_scaling(rec, inp):
 def types_for(c):
     if c in ("a_ani_sigma/kin", "beta_inf_sigma/GOM", "joint/kin", "gamma_in_sigma/kin", "log_m2l_sigma/kin", "gamma_pl_sigma/global/kin",
              "a_ani_sigma/dist_NONE", "beta_inf_sigma/OM", "a_ani_sigma/kin/edge", "beta_inf_sigma/GOM/edge", "joint/GOM/edge", "gamma_in_sigma/kin/edge",
-             "log_m2l_sigma/kin/edge"): return KIN_TYPES
+             "log_m2l_sigma/kin/edge", "joint/lens/edge"): return KIN_TYPES
     if c == "sigma_sne/mag": return MAG_TYPES
     if c == "sigma_sne/nonmag": return NON_MAG
     if c in ("gamma_pl_sigma/global/DSPL", "nonfinite_draws/DSPL"): return ["DSPL"]
